@@ -12,7 +12,7 @@ RULE = ('programs from a grammar: 1-2 buses (optionally A forwards to B), 1-3 ha
         '(fire-and-forget, awaited, late-awaited; own or other bus; depth 2-3), an external actor dispatching concurrently, and re-dispatch of the same object '
         'to the same bus while pending / in flight / after completion; all schedules with <= L deviations, both bus orders. '
         'non-trivial = a nested dispatch, re-dispatch or suspended handler occurred; distinct = distinct recorder traces')
-ASSUMPTIONS = ['no stop(), no handler timeouts, fewer than 50 events (no eviction), self-recursion not used (C03/C15 cover the recursion guard)']
+ASSUMPTIONS = ['no stop(), no handler timeouts, fewer than 50 events (no eviction), self-recursion only in family c01.recursion_guard, where a refusal by the recursion guard that is recorded as the RuntimeError result of that handler is not counted as a skipped delivery']
 
 P_SHAPES = {
     'ret': [('ret', 1)],
@@ -154,6 +154,12 @@ def families(tier):
             main = [('disp', 'A', 'P', 'ff'), ('pause',), ('idle', 'A'), ('reoffer', 'A'), ('idle', 'A')]
         out.append(dict(prop='C01', family='c01.retry_after_reject', id=f'c01.retry_after_reject/K{K}-h{hist}-{src}', params=dict(K=K), cfg=dict(bound=1, cap=60, window=0.25, max_targets=1, busy=False),
                         scn=dict(buses={'A': dict(hist=hist)}, handlers=hs, main=main, actors=[], forwards=[], order=['A'], settle=3.0, no_watch=True)))
+    # --- family 7: one handler re-emits its own event type from inside itself, 4-5 levels deep; from the 4th level on the library's recursion guard refuses THAT
+    # handler (by design, recorded as its error result).  The handlers registered before and after it are innocent and still get every event
+    for mode, maxd, par in itertools.product(('ff', 'await'), (3, 4), (False, True)):
+        hs = [dict(bus='A', pat='R', name='hpre', prog=[('ret', 8)], kind='sync'), dict(bus='A', pat='R', name='hr', prog=[('recurse', 'A', mode, maxd), ('ret', 1)]),
+              dict(bus='A', pat='R', name='hfin', prog=[('pause',), ('ret', 9)]), dict(bus='A', pat='*', name='hw', prog=[('ret', 7)], kind='sync')]
+        add('c01.recursion_guard', f'{mode}-d{maxd}-p{int(par)}', scn({'A': dict(parallel=par)}, hs, [('disp', 'A', 'R', 'ff'), ('disp', 'A', 'X', 'ff')]), guard=True)
     # the grammar-generated corpus shared by the bus properties (vsched/gen.py), judged by this property's oracle
     from .. import gen
     out += gen.family('C01', tier, timeouts=(None,), allow_tmo_await=False)
@@ -199,12 +205,16 @@ def oracle(spec, res):
     for en in tr.enters:
         enters[(en[2], en[3], en[4])] = enters.get((en[2], en[3], en[4]), 0) + 1
     expected = set()
+    refused = set()
     for (bus, ev) in accepted:
         for h in scn_['handlers']:
             if h['bus'] == bus and _matches(h, ev[0]):
                 expected.add((bus, h['name'], ev))
                 n = enters.get((bus, h['name'], ev), 0)
-                if n == 0:
+                if n == 0 and spec['params'].get('guard') and any(r['bus'] == bus and r['h'] == _fname(h) and r['status'] == 'error' and r['errtype'] == 'RuntimeError'
+                                                                   for r in res['final']['events'].get(ev, {}).get('results', [])):
+                    refused.add((bus, h['name'], ev))  # the recursion guard refused this handler and said so in its result: not a silent skip
+                elif n == 0:
                     out.append(V('handler_skipped', f'{bus}.{h["name"]} never ran for {ev} (accepted at seq {accepted[(bus, ev)]})', redispatched=_redisp(tr, bus, ev)))
                 elif n > 1:
                     out.append(V('handler_ran_twice', f'{bus}.{h["name"]} ran {n} times for {ev}', redispatched=_redisp(tr, bus, ev)))
